@@ -179,13 +179,14 @@ def c02(cx):
              'zero consumption on a possibly-blank character is entered behind the whitespace/comment skipper or a '
              'mode that leaves a non-blank (mode push order; audited table of modes for which a blank is a '
              'terminator), R-POP-OWN (no step pops a mode it has not identified) and R-DEPTH-GUARD (an argument value '
-             'ends at a comma or parenthesis only at nesting level zero), structural R-CHARCLASS (the name-start / '
+             'ends at a comma or parenthesis only at nesting level zero), R-FAMILY-AGREE (flavours of one built-in, and '
+             'the arms of the iterative %do, set up the same modes with the same flags), structural R-CHARCLASS (the name-start / '
              'name-continue predicates accept exactly the language\'s classes on ASCII, so a name valid at a call is '
              'valid in the definition). Decides these mode-choreography clauses, '
              'not the absence of errors for all programs.')
 def c12(cx):
     lea_glue.apply(cx, ["R-CKPT", "R-PENDING", "R-WS-ORDER", "R-EXPECT-TABLE", "R-FRAME-BALANCE", "R-9XXX", "R-PRECONSUME",
-                        "R-POP-OWN", "R-DEPTH-GUARD"])
+                        "R-POP-OWN", "R-DEPTH-GUARD", "R-FAMILY-AGREE"])
     rules_cfg.r_charclass(cx)
 
 
